@@ -238,6 +238,42 @@ def shard_service(task):
   return {'n': n, 'nontrivial': nontriv, 'refused': 0, 'violations': list(vios.values())}
 
 
+def cross_values():
+  """Suggestion sequences (kept alive / restored before every step) of the designers whose whole stream is fixed by the seed."""
+  c03 = _spaces()
+  fs = designer_factories()
+  out = {}
+  for name, keys in (('grid', ('i-22', 'c2')), ('shuffled_grid', ('i-22', 'c2')), ('shuffled_grid', ('d01', 'x2')), ('quasi_random', ('d01', 'c5')), ('eagle', ('d01', 'c5'))):
+    mk, mode, _ = fs[name]
+    prob = c03.problem(keys)
+    for seed in (1, 7):
+      batches = (2, 3, 1, 3)
+      for label, restarts in (('alive', set()), ('restored', {1, 2, 3})):
+        try:
+          got, _, _ = run_sequence(name, mk, mode, prob, seed, batches, restarts)
+          out['%s|%s|%d|%s' % (name, '+'.join(keys), seed, label)] = [[sorted((k, repr(v)) for k, v in s.items()) for s in step] for step in got]
+        except Exception as e:  # pylint: disable=broad-except
+          out['%s|%s|%d|%s' % (name, '+'.join(keys), seed, label)] = 'ERR:' + type(e).__name__
+  return out
+
+
+def cross_child(task):
+  """One fresh interpreter with the given PYTHONHASHSEED (a restarted server is another process)."""
+  import json
+  import os
+  import subprocess
+  import sys
+  env = dict(os.environ)
+  env['PYTHONHASHSEED'] = str(task['hashseed'])
+  verif = os.path.dirname(os.path.dirname(os.path.abspath(__file__)))
+  code = 'import json,sys; from vfw import boot; boot.boot(); from props import c13; sys.stdout.write("\\n@@RESULT@@" + json.dumps(c13.cross_values()) + "\\n")'
+  p = subprocess.run([sys.executable, '-c', code], cwd=verif, env=env, capture_output=True, text=True, timeout=1500)
+  for line in p.stdout.splitlines():
+    if line.startswith('@@RESULT@@'):
+      return {'hashseed': task['hashseed'], 'result': json.loads(line[len('@@RESULT@@'):])}
+  return {'hashseed': task['hashseed'], 'result': None, 'stderr': p.stderr[-600:]}
+
+
 def run(ctx):
   q = ctx.quick
   fs = designer_factories()
@@ -266,6 +302,27 @@ def run(ctx):
       nontriv += r['nontrivial']
       refused += r['refused']
       ctx.extend(r['violations'])
+  # a restarted server is another process: the instance restored in an interpreter with another string-hash salt must continue
+  # like the one kept alive in this one
+  kids = list(ctx.pmap('cross_child', [{'hashseed': h} for h in (0, 1, 4242)]))
+  if kids[0]['result'] is None:
+    from vfw.runner import HarnessError
+    raise HarnessError('cross-process child failed: %s' % kids[0].get('stderr'))
+  ref = kids[0]['result']
+  for k in kids[1:]:
+    if k['result'] is None:
+      ctx.violation('C13|cross-process-run-fails', 'run with PYTHONHASHSEED=%s failed: %s' % (k['hashseed'], k.get('stderr')), {'cross': True})
+      continue
+    for key, val in ref.items():
+      if not key.endswith('|alive') or isinstance(val, str):
+        continue
+      tot += 1
+      nontriv += 1
+      other = k['result'].get(key.replace('|alive', '|restored'))
+      if other != val:
+        name = key.split('|')[0]
+        ctx.violation('C13|suggestions-differ:restored-in-another-process|%s' % name,
+                      '%s: the instance restored before every step in an interpreter with PYTHONHASHSEED=%s suggests %s, the one kept alive (PYTHONHASHSEED=0) %s' % (key, k['hashseed'], str(other)[:240], str(val)[:240]), {'cross': True})
   return {'evaluations': tot, 'distinct_nontrivial': nontriv,
           'rule': 'one evaluation = one (designer, space, seed, batch-size sequence, non-empty subset of restart positions) run compared step by step with the run of the instance kept alive; all distinct by construction, '
                   'all contain at least one dump -> wire -> fresh instance -> load',
@@ -274,6 +331,13 @@ def run(ctx):
 
 
 def replay(case, ctx):
+  if case.get('cross'):
+    ref, oth = cross_child({'hashseed': 0})['result'], cross_child({'hashseed': 1})['result']
+    out = []
+    for key, val in (ref or {}).items():
+      if key.endswith('|alive') and not isinstance(val, str) and (oth or {}).get(key.replace('|alive', '|restored')) != val:
+        out.append({'sig': 'C13|suggestions-differ:restored-in-another-process|%s' % key.split('|')[0], 'desc': key, 'case': case})
+    return out
   if case.get('service'):
     return shard_service({'backends': ['ram', 'sqlmem'], 'algos': ['GRID_SEARCH', 'SHUFFLED_GRID_SEARCH'], 'maxlen': 3})['violations']
   return shard({'designer': case['designer'], 'spaces': [tuple(case['space'])], 'seeds': [case['seed']], 'maxlen': len(case['batches'])})['violations']
